@@ -498,3 +498,22 @@ case(C + "sorted_items_tuple_keys", params={"d": Dict(TupleOf(STR), INT)}, retur
                                                                              "eq": "all(out[j] == sorted(d)[j] for j in range(i))"})},
      gen=lambda rng: {"d": [[list(rng.sample(["a", "b", "c"], rng.randint(0, 2))), rng.randint(0, 3)] for _ in range(rng.randint(0, 3))]},
      build=lambda dd: {"d": {tuple(k): v for k, v in dd["d"]}})
+
+# ---- list.extend(<dict view>), `for` over a generator expression, de-duplicating extend from a view (round 4) -------------------
+case(C + "extend_views", params={"d": Dict(STR, INT), "xs": List(INT)}, returns=Tuple(List(INT), INT, List(INT)), locals={"n": INT, "seen": List(INT)},
+     requires=["all(x >= 0 for x in xs)"],
+     ensures={"len": "len(result[0]) == len(xs) + len(d)", "vals": "all(d[k] in result[0] for k in d)", "n": "result[1] >= len(xs)",
+              "seen": "all(d[k] in result[2] for k in d)", "seen-bound": "len(result[2]) <= len(d)"},
+     canaries={"no-growth": "len(result[0]) == len(xs)", "n-zero": "result[1] == 0", "seen-all": "len(result[2]) == len(d)"},
+     loops={"for v in (x + 1 for x in xs)": Loop(index="i", invariants={"n": "n >= i"})},
+     portfolio=["cvc5"],
+     gen=lambda rng: {"d": sdict(rng), "xs": ints(rng, a=0, b=3)})
+
+# ---- dict comprehension with two `for` clauses over a symbolic dict: under-specified result (round 4) ---------------------------
+case(C + "invert_classes", params={"classes": Dict(STR, TupleOf(STR))}, returns=Dict(STR, STR),
+     ensures={"dom": "all(all(classes[n][j] in result for j in range(len(classes[n]))) for n in classes)",
+              "sound": "all(result[g] in classes and g in classes[result[g]] for g in result)",
+              "only": "all(any(g in classes[n] for n in classes) for g in result)"},
+     canaries={"empty": "len(result) == 0", "every-class-wins": "all(all(result[classes[n][j]] == n for j in range(len(classes[n]))) for n in classes)"},
+     gen=lambda rng: {"classes": {k: list(rng.sample(["a", "b", "c"], rng.randint(0, 2))) for k in rng.sample(["x", "y", "z"], rng.randint(0, 3))}},
+     build=lambda d: {"classes": {k: tuple(v) for k, v in d["classes"].items()}})
